@@ -193,3 +193,110 @@ def rule_tailmask(progs, tier, name="TAILMASK", floor=4, scope=None):
                 res.ok({"fn": f.id, "selections": [(d, sorted(p)) for d, _, p in sels]})
         res.require_floor(floor, "functions computing len % 64")
     return out
+
+
+# ------------------------------------------------------------------------------------------
+def _trace_field_source(f, op, depth=0):
+    """Trace an aggregate operand back to ('call', callee, tuple_index) | ('param', name) | ('other',)."""
+    defs = local_defs(f)
+    cur = op
+    idx = None
+    for _ in range(12):
+        if cur[0] == "k":
+            return ("const", cur[1].get("v"))
+        pl = op_place(cur)
+        if pl is None:
+            return ("other",)
+        l, proj = pl
+        fields = [e for e in proj if isinstance(e, list) and e[0] == "f"]
+        if fields and idx is None:
+            idx = fields[-1][1]
+        if 1 <= l <= f.nargs and l not in defs:
+            return ("param", f.names.get(l, "_%d" % l), idx)
+        ds = [d for d in defs.get(l, []) if d[1] in ("rv", "call")]
+        if len(ds) != 1:
+            if 1 <= l <= f.nargs:
+                return ("param", f.names.get(l, "_%d" % l), idx)
+            return ("other",)
+        bi, kind, p = ds[0]
+        if kind == "call":
+            fop = p[1]
+            nm = fop[1].get("r", fop[1].get("fn")) if fop[0] == "k" else "?"
+            return ("call", nm, idx)
+        if p[0] == "use":
+            cur = p[1]
+            continue
+        if p[0] == "agg" and p[1].get("k") == "tuple" and idx is not None and idx < len(p[2]):
+            cur = p[2][idx]
+            idx = None
+            continue
+        return ("other",)
+    return ("other",)
+
+
+def rule_ctor_siblings(progs, tier, adt="trees::bp::BalancedParens", producer="trees::bp::build_bp_index", name="CTOR", floor=5):
+    """Constructor funnel / sibling agreement: every struct literal of `adt` must take the fields
+    that come from `producer`'s result tuple from the same tuple positions as its siblings, and
+    (ground truth) from the position whose producing local in `producer` carries the field's name."""
+    out = []
+    for cfg, P in progs.items():
+        res = RuleResult(name, cfg)
+        out.append(res)
+        prod = P.fns.get(producer)
+        truth = {}
+        if prod is not None:
+            # the return aggregate of the producer: tuple element i <- local named n
+            for bi, b in enumerate(prod.blocks):
+                for s in b["s"]:
+                    if s[0] == "a" and s[1] == [0, []] and s[2][0] == "agg" and s[2][1].get("k") == "tuple":
+                        for i, o in enumerate(s[2][2]):
+                            pl = op_place(o)
+                            if pl is not None and not pl[1]:
+                                # follow one copy to a named local
+                                nm = prod.names.get(pl[0])
+                                if nm is None:
+                                    ds = local_defs(prod).get(pl[0], [])
+                                    if len(ds) == 1 and ds[0][1] == "rv" and ds[0][2][0] == "use":
+                                        q = op_place(ds[0][2][1])
+                                        if q is not None:
+                                            nm = prod.names.get(q[0])
+                                if nm:
+                                    truth.setdefault(i, set()).add(nm)
+        sites = []
+        for f in sorted(P.fns.values(), key=lambda f: f.id):
+            if f.crate != "lib":
+                continue
+            for bi, b in enumerate(f.blocks):
+                for s in b["s"]:
+                    if s[0] == "a" and s[2][0] == "agg" and s[2][1].get("k") == "adt" and P.norm(s[2][1]["path"], False) == adt and not s[4]:
+                        fields = s[2][1]["fields"]
+                        m = {}
+                        for fname, o in zip(fields, s[2][2]):
+                            src = _trace_field_source(f, o)
+                            if src[0] == "call" and src[1] and P.norm(src[1], False) == producer:
+                                m[fname] = src[2]
+                        if m:
+                            sites.append((f, s[3], m))
+        if len(sites) < floor:
+            res.bad("%s:%s:floor" % (name, adt), "only %d constructor sites of %s take fields from %s (floor %d; anchor missing or idiom not recognised)" % (len(sites), adt, producer, floor))
+            continue
+        # reference: majority mapping per field
+        from collections import Counter
+
+        ref = {}
+        for fname in set().union(*[set(m) for _, _, m in sites]):
+            c = Counter(m.get(fname) for _, _, m in sites if fname in m)
+            ref[fname] = c.most_common(1)[0][0]
+        for f, line, m in sites:
+            diffs = {k: (v, ref[k]) for k, v in m.items() if v != ref[k]}
+            named = {k: v for k, v in m.items() if v in truth and k not in truth[v] and any(k in t for t in truth.values())}
+            if diffs or named:
+                k = sorted(diffs or named)[0]
+                res.bad(
+                    "%s:%s" % (name, f.id),
+                    "constructor %s fills field `%s` from element %s of %s's result, its siblings take element %s%s: the struct is assembled from mismatched index parts" % (f.id, k, m[k], producer, ref[k], (" (the producer binds that element from local %s)" % sorted(truth.get(m[k], []))) if truth.get(m[k]) else ""),
+                    f.loc(line),
+                )
+            else:
+                res.ok({"ctor": f.id, "fields_from_producer": len(m), "mapping": "agrees with siblings" + (" and with producer's local names" if truth else "")})
+    return out
